@@ -1,1 +1,46 @@
-fn main(){}
+//! hd: harness binary for the properties decided on a real `VhostUserDaemon`
+//! (vhost-user-backend + vhost frontend, verif-hooks).
+//!
+//! usage: hd <check> [--tier quick|thorough] [--shard I] [--nshards N] [--seed S] [--only CASE]
+
+#![allow(dead_code, clippy::too_many_arguments)]
+
+mod c05;
+mod c09;
+mod c11;
+mod c12;
+mod c13;
+mod c14;
+mod c15;
+mod c16;
+mod c17;
+mod dmn;
+mod util;
+
+pub use common::cli::Cfg;
+use common::report;
+
+fn main() {
+    let cfg = common::cli::parse("hd");
+    common::sys::raise_nofile();
+    unsafe { libc::signal(libc::SIGPIPE, libc::SIG_IGN) };
+    report::init(&cfg.check.to_uppercase(), cfg.shard, cfg.seed);
+    util::install_panic_monitor();
+    match cfg.check.as_str() {
+        "c05" => c05::run(&cfg),
+        "c09" => c09::run(&cfg),
+        "c11" => c11::run(&cfg),
+        "c12" => c12::run(&cfg),
+        "c13" => c13::run(&cfg),
+        "c14" => c14::run(&cfg),
+        "c15" => c15::run(&cfg),
+        "c16" => c16::run(&cfg),
+        "c17" => c17::run(&cfg),
+        other => {
+            eprintln!("unknown check {other}");
+            std::process::exit(2);
+        }
+    }
+    util::report_panics(&cfg);
+    std::process::exit(report::finish());
+}
